@@ -104,6 +104,9 @@ class Outcome:
             self.coverage["out_of_model"] = self.out_of_model
             if self.out_of_model > 0.05 * max(1, self.judged):
                 self.machinery(f"{self.out_of_model} of {self.judged} cases left the 32-bit-safe range of the specification")
+        if tlc.DUPLICATE_VERDICT_LINES:
+            self.notes.append(f"TLC printed {len(tlc.DUPLICATE_VERDICT_LINES)} VERDICT line(s) twice (identical; counted once): "
+                              f"{tlc.DUPLICATE_VERDICT_LINES[:3]}")
         if self.spec_errors:
             self.coverage["spec_errors"] = self.spec_errors
             self.notes.append(f"{self.spec_errors} trace(s) on which TLC failed to evaluate the specification were not judged "
